@@ -45,7 +45,7 @@ Proof.
   eexists. exists e0, (kek_nonce c h seed r3), p. split; [exact Eu|].
   cbn [emitted_blob emitted_kid b_enc_content_parameters b_key_identifier kid_key_info b_enc_content b_enc_cek].
   split; [exact Ep|]. split; [reflexivity|]. split; [exact Eiv|]. split; [reflexivity|].
-  split; [destruct He0 as [Hpk _ _ _ _ _ _]; exact Hpk|].
+  split; [destruct He0 as [Hpk _ _ _ _ _ _ _ _]; exact Hpk|].
   split; [unfold derived_kek; rewrite Es; reflexivity|]. rewrite Ect, Ew. auto.
 Qed.
 
